@@ -159,6 +159,11 @@ def _cases(tier):
     add("where(bcast)", "lambda anp, x, y: anp.where(__import__('numpy').array([[True, False, True], [False, False, True]]), x, y)", [(3,), (2, 1)])
     add("where(scalar)", "lambda anp, x, y: anp.where(__import__('numpy').array([True, False, True]), x, y)", [(), (3,)])
     add("select", "lambda anp, x, y: anp.select([__import__('numpy').array([True, False, False]), __import__('numpy').array([True, True, False])], [x, y], default=0.0)", [(3,), (3,)], mode="flt", second=False)
+    add("full(scalar fill)", "lambda anp, x: anp.full((2, 3), x)", [()], mode="flt", second=False)
+    add("full(array fill)", "lambda anp, x: anp.full((2, 3), x)", [(3,)], mode="flt", second=False)
+    add("full(size-1 fill)", "lambda anp, x: anp.full((2, 2), x)", [(1,)], mode="flt", second=False)
+    add("linspace", "lambda anp, x, y: anp.linspace(x, y, 5)", [(), ()], mode="flt", second=False)
+    add("linspace(num=1)", "lambda anp, x, y: anp.linspace(x, y, 1)", [(), ()], mode="flt", second=False)
     add("clip", "lambda anp, x: anp.clip(x, 0.3, 2.4)", [(2, 3)], mode="lin", second=False)
     add("sort", "lambda anp, x: anp.sort(x)", [(4,)], mode="lin", second=False)
     add("sort(2-D)", "lambda anp, x: anp.sort(x, axis=-1)", [(2, 3)], mode="lin", second=False)
@@ -503,6 +508,24 @@ def run(rep, tier, clauses, which="rules"):
             if not ok:
                 rep.violation(f"E4:{cl}", label, f"{label}: {detail}", replay=dict(module="contracts.rules_exact", label=label, which=which, tier=tier, clause=cl), witness=True)
     rep.extra.setdefault("e4_cases", {})[which] = dict(cases=len(cases), not_evaluable=nskip)
+    if which == "rules":
+        try:  # registrations of numpy_vjps.py that neither the E2 spec table nor any bounded table exercises by name are listed, not hidden
+            import re as _re
+            from vlib import rulecalc as _rc
+            from . import rules_numeric as _rn, rules_scalar as _rs
+            rv, rj, _ = _rs.load()
+            names = sorted({k[0] for k in rv.vjps} | set(rv.vjp_argnum))
+            txt = " ".join(c["src"] for c in cases) + " ".join(c["src"] for c in _index_cases()) + " ".join(c[1] for c in _rn.CASES)
+            internal = {"ArrayBox.__getitem__": "x[...]", "_array_from_scalar_or_array": "anp.array", "array_from_args": "anp.array", "concatenate_args": "anp.concatenate", "_astype": ".astype",
+                        "untake": "x[...] (second order)", "dot_adjoint_0": "anp.dot (second order)", "dot_adjoint_1": "anp.dot (second order)", "tensordot_adjoint_0": "anp.tensordot (second order)",
+                        "tensordot_adjoint_1": "anp.tensordot (second order)"}
+            for nm in names:
+                hit = _re.search(r"anp\.(fft\.|linalg\.)?" + _re.escape(nm) + r"\b", txt) or _re.search(r"\." + _re.escape(nm) + r"\(", txt) or nm in _rc.SPEC
+                if not hit and nm not in internal:
+                    rep.uncover(f"primitive `{nm}` has a VJP registration but no case in the E2/E4/numeric tables")
+            rep.extra["internal_primitives_exercised_through"] = internal
+        except Exception as e:  # noqa
+            rep.note(f"coverage listing failed: {e}")
 
 
 def replay(spec):
